@@ -446,3 +446,62 @@ def zone_field_elements(payload: bytes, pool):
     if d.more():
         raise Bad("trailing bytes")
     return out
+
+
+# ------------------------------------------------------------------------------------------ decoded elements of the non-zone fields
+
+def field_elements(fid: int, payload: bytes):
+    """Decoded elements of a non-zone field payload in stream order, as dicts
+        {a, b, role, value[, items]}   a:b = byte range of the element's own encoding
+    roles: count (a list's element count; items = [(start, end)] byte ranges of the list's elements), index (string-pool
+    index), signed (zig-zag number), strlen (length prefix of an inline string; items = [(start, end)] of its bytes).
+    fid: 0 string pool, 2 version, 3 id map, 4 Windows zones, 6 zone locations, 7 zone-1970 locations."""
+    d = Dec(payload, None)
+    out = []
+
+    def num(role, signed=False):
+        a = d.p
+        v = d.signed() if signed else d.count()
+        e = {"a": a, "b": d.p, "role": role, "value": v}
+        out.append(e)
+        return e
+
+    def inline_string():
+        e = num("strlen")
+        n = e["value"]
+        if d.p + n > len(payload):
+            raise Bad("string runs past the end")
+        e["items"] = [(d.p, d.p + n)]
+        d.p += n
+
+    def listed(item):
+        c = num("count")
+        c["items"] = []
+        for _ in range(c["value"]):
+            a = d.p
+            item()
+            c["items"].append((a, d.p))
+
+    def idx():
+        num("index")
+
+    if fid == 0:
+        listed(inline_string)
+    elif fid == 2:
+        inline_string()
+    elif fid == 3:
+        listed(lambda: (idx(), idx()))
+    elif fid == 4:
+        idx()
+        idx()
+        idx()
+        listed(lambda: (idx(), idx(), listed(idx)))
+    elif fid == 6:
+        listed(lambda: (num("signed", True), num("signed", True), idx(), idx(), idx(), idx()))
+    elif fid == 7:
+        listed(lambda: (num("signed", True), num("signed", True), listed(lambda: (idx(), idx())), idx(), idx()))
+    else:
+        raise Bad("no element model for field id %d" % fid)
+    if d.more():
+        raise Bad("trailing bytes")
+    return out
